@@ -33,6 +33,7 @@ type In struct {
 
 type Out struct {
 	Accepted bool   `json:"accepted"`
+	Flagged  bool   `json:"flagged"` // delivered / passed with the quarantine flag
 	Stage    string `json:"stage"`
 	Code     int    `json:"code"`
 }
@@ -41,15 +42,15 @@ type Out struct {
 
 var checks = map[string]module.Check{}
 
-func checkFor(t *testing.T, tbl, norm string, chk bool) module.Check {
-	k := fmt.Sprintf("%s/%s/%v", tbl, norm, chk)
+func checkFor(t *testing.T, r Row) module.Check {
+	k := fmt.Sprintf("%s/%s/%v/%s", r.Tbl, r.Norm, r.Chk, r.Act)
 	if c, ok := checks[k]; ok {
 		return c
 	}
-	m, err := authkit.InitFromText("check.authorize_sender", fmt.Sprintf("c15chk_%s_%s_%v", tbl, norm, chk), nil,
-		CheckConfig(tbl, norm, chk))
+	m, err := authkit.InitFromText("check.authorize_sender", fmt.Sprintf("c15chk%d", len(checks)), nil,
+		CheckConfig(r.Tbl, r.Norm, r.Chk, r.Act))
 	if err != nil {
-		t.Fatalf("authorize_sender init (%s): %v", k, err)
+		t.Fatalf("authorize_sender init (%s): %v\n%s", k, err, CheckConfig(r.Tbl, r.Norm, r.Chk, r.Act))
 	}
 	c := m.(module.Check)
 	checks[k] = c
@@ -57,7 +58,7 @@ func checkFor(t *testing.T, tbl, norm string, chk bool) module.Check {
 }
 
 func direct(t *testing.T, r Row) Out {
-	c := checkFor(t, r.Tbl, r.Norm, r.Chk)
+	c := checkFor(t, r)
 	ctx := context.Background()
 	meta := &module.MsgMetadata{ID: "verif", Conn: &module.ConnState{AuthUser: User(r.Auth), Proto: "ESMTP"}}
 	st, err := c.CheckStateForMsg(ctx, meta)
@@ -65,17 +66,22 @@ func direct(t *testing.T, r Row) Out {
 		t.Fatal(err)
 	}
 	defer st.Close()
-	if res := st.CheckSender(ctx, Addr(r.Mf)); res.Reject || res.Quarantine {
-		return Out{false, "mail", codeOf(res)}
+	flagged := false
+	if res := st.CheckSender(ctx, Addr(r.Mf)); res.Reject {
+		return Out{false, false, "mail", codeOf(res)}
+	} else if res.Quarantine {
+		flagged = true
 	}
 	hdr, err := textproto.ReadHeader(bufio.NewReader(strings.NewReader(Header(r) + "\r\n")))
 	if err != nil {
 		t.Fatalf("harness rendered a header go-message cannot read: %v\n%s", err, Header(r))
 	}
-	if res := st.CheckBody(ctx, hdr, buffer.MemoryBuffer{Slice: []byte("hello\r\n")}); res.Reject || res.Quarantine {
-		return Out{false, "data", codeOf(res)}
+	if res := st.CheckBody(ctx, hdr, buffer.MemoryBuffer{Slice: []byte("hello\r\n")}); res.Reject {
+		return Out{false, false, "data", codeOf(res)}
+	} else if res.Quarantine {
+		flagged = true
 	}
-	return Out{true, "accepted", 250}
+	return Out{true, flagged, "accepted", 250}
 }
 
 func codeOf(res module.CheckResult) int {
@@ -97,17 +103,21 @@ type sink struct {
 	inst string
 	mu   sync.Mutex
 	n    int
+	quar bool // quarantine flag of the last committed message
 }
 
 func (s *sink) Name() string             { return "target.verifsink" }
 func (s *sink) InstanceName() string     { return s.inst }
 func (s *sink) Init(_ *config.Map) error { return nil }
-func (s *sink) Start(_ context.Context, _ *module.MsgMetadata, _ string) (module.Delivery, error) {
-	return &sinkDelivery{s}, nil
+func (s *sink) Start(_ context.Context, meta *module.MsgMetadata, _ string) (module.Delivery, error) {
+	return &sinkDelivery{s, meta}, nil
 }
 func (s *sink) count() int { s.mu.Lock(); defer s.mu.Unlock(); return s.n }
 
-type sinkDelivery struct{ s *sink }
+type sinkDelivery struct {
+	s    *sink
+	meta *module.MsgMetadata
+}
 
 func (d *sinkDelivery) AddRcpt(context.Context, string, smtp.RcptOptions) error { return nil }
 func (d *sinkDelivery) Body(context.Context, textproto.Header, buffer.Buffer) error {
@@ -117,6 +127,7 @@ func (d *sinkDelivery) Abort(context.Context) error { return nil }
 func (d *sinkDelivery) Commit(context.Context) error {
 	d.s.mu.Lock()
 	d.s.n++
+	d.s.quar = d.meta.Quarantine
 	d.s.mu.Unlock()
 	return nil
 }
@@ -152,7 +163,7 @@ func neighbourBlock(nb string) string {
 
 func endpointFor(t *testing.T, kind string, r Row) *endpoint {
 	tbl, norm := r.Tbl, r.Norm
-	k := fmt.Sprintf("%s/%s/%s/%v/%s", kind, tbl, norm, r.Chk, r.Nb)
+	k := fmt.Sprintf("%s/%s/%s/%v/%s/%s", kind, tbl, norm, r.Chk, r.Nb, r.Act)
 	if e, ok := endpoints[k]; ok {
 		return e
 	}
@@ -185,7 +196,7 @@ func endpointFor(t *testing.T, kind string, r Row) *endpoint {
 		text += "auth &c15auth\nsasl_login yes\n"
 	}
 	text += "check {\n    authorize_sender {\n"
-	for _, l := range strings.Split(strings.TrimSpace(CheckConfig(tbl, norm, r.Chk)), "\n") {
+	for _, l := range strings.Split(strings.TrimSpace(CheckConfig(tbl, norm, r.Chk, r.Act)), "\n") {
 		text += "        " + l + "\n"
 	}
 	text += "    }\n" + neighbourBlock(r.Nb) + "}\ndeliver_to &" + sk.inst + "\n"
@@ -253,24 +264,27 @@ func viaEndpoint(t *testing.T, r Row) Out {
 			rep = must(cl.AuthPlain(az, User(r.Auth), pw[r.Auth.A], true))
 		}
 		if rep.Code != 235 {
-			return Out{false, "auth", rep.Code}
+			return Out{false, false, "auth", rep.Code}
 		}
 	}
 	if rep := must(cl.Cmd("MAIL FROM:<" + Addr(r.Mf) + "> SMTPUTF8")); rep.Code != 250 {
-		return Out{false, "mail", rep.Code}
+		return Out{false, false, "mail", rep.Code}
 	}
 	if rep := must(cl.Cmd("RCPT TO:<rcpt@dest.example>")); rep.Code != 250 {
-		return Out{false, "rcpt", rep.Code}
+		return Out{false, false, "rcpt", rep.Code}
 	}
 	rep := must(cl.Data([]byte(Header(r) + "\r\nhello\r\n")))
 	cl.Cmd("QUIT")
 	if rep.Code != 250 {
-		return Out{false, "data", rep.Code}
+		return Out{false, false, "data", rep.Code}
 	}
 	if e.sink.count() != before+1 {
 		t.Fatalf("DATA answered 250 but the target did not get the message")
 	}
-	return Out{true, "accepted", 250}
+	e.sink.mu.Lock()
+	flagged := e.sink.quar
+	e.sink.mu.Unlock()
+	return Out{true, flagged, "accepted", 250}
 }
 
 func TestReplay(t *testing.T) {
